@@ -619,6 +619,22 @@ func TestWire(t *testing.T) {
 					renew()
 				}
 			}
+			// (1b) a record that is one JSON value but not an object or an array (a number, a string, null, true): one invalid
+			// member, answered as such - not undecodable input; ParseRequests: no top-level error, one flagged entry
+			for _, cls := range []string{"num", "str", "null", "true"} {
+				mc := memberCase{text: nonObjText(cls), v: tab.NonObj, id: "null", desc: "top-level " + cls}
+				why, rec := checkRecord(r, []memberCase{mc}, false)
+				res.Evaluations++
+				if why != "" {
+					addV("C02", string(rec), push, why)
+					renew()
+				}
+				if !push {
+					if why := checkParse(rec, []cellJSON{{}}, []int{0}, []bool{true}); why != "" {
+						addV("C13", string(rec), false, why)
+					}
+				}
+			}
 			// (2) batches of 2..3 members drawn from the table (and non-object members)
 			for n := 0; n < nbatch; n++ {
 				k := 2 + rng.IntN(2)
